@@ -7,7 +7,7 @@ import re
 
 from ..model import AnalysisError
 from .itmd_ir import canonical, show, space_of, Poly, tensor_factor, _Typing, _factor_indices
-from .itmd_sx import registry_sx as registry, definition_sx, substituted, builder, declared_spin_blocks, expected_spin_blocks
+from .itmd_sx import _Ref, registry_sx as registry, definition_sx, substituted, builder, declared_spin_blocks, expected_spin_blocks
 
 EXPLANATION = (
     "Everything is decided on values obtained by abstract evaluation (sa.symex) of intermediates.py, nothing on the "
@@ -38,22 +38,30 @@ EXPLANATION = (
     "expanded definitions of the referenced intermediates inserted (residuals: equals the once expanded variant). R12f: "
     "RegisteredIntermediate.allowed_spin_blocks is evaluated for every intermediate; every block of the default indices on "
     "which the definition does not vanish by spin conservation of its factors (<pq||rs>: as many alpha spins in pq as in rs, "
-    "f_pq: equal spins, referenced intermediates: recursively) must be declared allowed; declared but vanishing blocks are "
-    "notes. R12i: "
+    "f_pq: equal spins, referenced intermediates: recursively) must be declared allowed and the blocks must be determinable "
+    "(no RuntimeError, also for the RE residuals); declared but vanishing blocks are notes; the restriction every tensor "
+    "object contributes is the evaluated value of expr_container.Obj.allowed_spin_blocks. R12k: Obj.expand_intermediates "
+    "and Polynom.expand_intermediates are evaluated for the exponents 1, 2, 3, -1, 1/2, fully and once expanded, sympy and "
+    "Expr result, with expand_itmd / Term.expand_intermediates as effectful vocabulary (every call is a new expansion with "
+    "fresh contracted indices): a positive integer power n is a product of n factors, each built from its own expansion "
+    "call(s), every call result used exactly once, indices/targets, return_sympy=True and the level forwarded; other "
+    "exponents: one expansion raised to the exponent. R12i: "
     "perturbation order of every term equals _order (maximum for residuals). R12h: the normal form equals the reference "
     "normal form recorded for the pinned tree (cross-checked once against the derived amplitudes/densities/residuals).")
 ASSUMPTIONS = [
     "real orbitals (<pq||rs> = <rs||pq>, f_pq = f_qp) as required by the factorisation routines",
     "the identity of each reference formula with the RSPT quantity was confirmed once by running the library "
     "(definition vs GroundState derivation); the static check decides agreement with that reference",
-    "R12f: spatial_orbitals.allowed_spin_blocks and Obj.allowed_spin_blocks are vocabulary, modelled by their contract (ERI "
-    "hard coded, t-amplitudes spin conserving between their halves, registered intermediates by their own "
-    "allowed_spin_blocks, Fock matrix/orbital energies without known blocks; RuntimeError when an index only sits on such "
-    "tensors); vanishing is decided by spin conservation of the factors only (no accidental cancellation between terms); "
+    "R12f: spatial_orbitals.allowed_spin_blocks is vocabulary, modelled by its contract (a block survives when the indices "
+    "can be given spins such that every object is on a block of its evaluated Obj.allowed_spin_blocks; objects without known "
+    "blocks do not restrict; RuntimeError when an index only sits on such objects); is_t_amplitude and Obj.longname are "
+    "vocabulary (C11); vanishing is decided by spin conservation of the factors only (no accidental cancellation between terms); "
     "the tensor object lists its indices in the order of the default indices (C11)",
     "vocabulary with assumed contract (not looked into here): get_symbols, the tensor constructors of sympy_objects.py, "
     "tensor_names, RegisteredIntermediate.tensor/expand_itmd/validate_indices (C11), Expr(..).substitute_contracted(), "
     ".permute/.subs/.copy/.expand/.sympy/.atoms(Index), sort_idx_canonical, sympy Rational/S/Pow",
+    "R12k: the registry is fixed when Intermediates() is first used (its `available` table is a snapshot); classes registered "
+    "later are outside the quantifier of this property (every *registered, available* intermediate)",
     "a definition that uses constructs outside the formula IR (foreign tensors, spin indices, sympy functions other than "
     "the vocabulary) is an ANALYSIS-ERROR, never a guess",
 ]
@@ -324,10 +332,9 @@ def r12f(ctx, defs):
         n += 1
         order = "".join(info["default_idx"])
         if got is None:
-            ctx.ok(rule, fn, f"{name}: the library declares no spin blocks (it gives up on tensors without known blocks), "
-                   "none is declared vanishing", fn=ref, key=f"{name} spin blocks")
-            ctx.note(f"R12f {name}: allowed_spin_blocks raises RuntimeError (Fock matrix without known spin blocks); the "
-                     f"definition is non-zero on {sorted(want)}")
+            ctx.bad(rule, fn, f"{name}: allowed_spin_blocks raises RuntimeError - an index of the definition only sits on tensors "
+                    "without known spin blocks, the blocks of the tensor symbol cannot be determined (the definition is non-zero on "
+                    f"{sorted(want)})", fn=ref, key=f"{name} spin blocks")
             continue
         missing = sorted(want - got)
         ctx.check(rule, fn, not missing, f"{name}: the {len(want)} non-vanishing blocks of the definition (order {order}) are declared allowed",
@@ -338,6 +345,118 @@ def r12f(ctx, defs):
         if extra:
             ctx.note(f"R12f {name}: declared allowed but vanishing by spin conservation: {extra} (harmless, only extra work)")
     ctx.floor(rule, "intermediates with spin blocks compared", n, 15)
+
+
+def r12k(ctx):
+    """expand_intermediates on a power: every factor of the power is a separate expansion (own contracted indices)"""
+    from fractions import Fraction
+    from ..symex import Symex, Obj
+    from ..terms import T, sym, t_mul, t_add, t_pow, args_of
+    rule = "R12k"
+    EC = "expr_container:"
+    hooks_arith = {"Mul": lambda sx, a, kw: t_mul(*a) if a else 1, "Add": lambda sx, a, kw: t_add(*a) if a else 0,
+                   "Pow": lambda sx, a, kw: t_pow(a[0], a[1])}
+
+    def factors(v):
+        """factors of a product value; a positive integer power counts as repeated factor"""
+        if isinstance(v, T) and v.op == "mul":
+            return [x for f in v.args for x in factors(f)]
+        if isinstance(v, T) and v.op == "pow" and isinstance(v.args[1], int) and not isinstance(v.args[1], bool) and v.args[1] > 0:
+            return factors(v.args[0]) * v.args[1]
+        return [v]
+
+    def unwrap(v, return_sympy, target):
+        if return_sympy:
+            return v, True
+        if isinstance(v, T) and v.op == "call" and v.args[0] == "Expr":
+            a = args_of(v)
+            return list(a.values())[0], a.get("target_idx") == target or dict(v.args[2]).get("target_idx") == target
+        return v, False
+
+    idx = ("i", "j")
+    target = ("i", "j")
+    n_checked = 0
+    for cls in ("Obj", "Polynom"):
+        fn = ctx.model.fn(f"{EC}{cls}.expand_intermediates")
+        for exponent in (1, 2, 3, -1, Fraction(1, 2)):
+            for level in (True, False):
+                for return_sympy in (True, False):
+                    calls = []
+
+                    def expansion(tag):
+                        sig = ctx.model.fn("intermediates:RegisteredIntermediate.expand_itmd" if tag == "definition"
+                                           else EC + "Term.expand_intermediates")
+
+                        def f(sx, a, kw):
+                            calls.append((tag, (), sx.bind(sig, a, kw, True, True, True)))  # by parameter name
+                            return sym(f"{tag}#{len(calls)}")
+                        return f
+                    itm = _Ref("ITMD", expand_itmd=expansion("definition"))  # a definite registry entry (never None)
+
+                    def intermediates(sx, a, kw):
+                        o = Obj(None, "Intermediates()")
+                        o.attrs["available"] = {"p9": itm}
+                        return o
+                    hooks = dict(hooks_arith)
+                    hooks.update({"Intermediates": intermediates, "longname": lambda sx, a, kw: "p9",
+                                  "methodcaller": lambda sx, a, kw: (lambda sx2, a2, kw2: sx2.call_method(a2[0], a[0], list(a[1:]), dict(kw), None))})
+                    sx = Symex(ctx.model, inline=lambda q: q.split(".")[-1] not in ("longname",), hooks=hooks,
+                               what=f"{cls}.expand_intermediates",
+                               attr_hook=lambda sx_, o, attr, node: o.attrs.get(attr, NotImplemented) if isinstance(o, _Ref) else NotImplemented)
+
+                    def args():
+                        del calls[:]
+                        term = Obj(None, "term", target=target)
+                        if cls == "Obj":
+                            base = Obj("sympy_objects:AntiSymmetricTensor", "tensor")
+                            me = Obj(EC + "Obj", "obj", base=base, sympy=sym("obj"), exponent=exponent, idx=idx, assumptions={}, term=term)
+                        else:
+                            ts = []
+                            for k in (1, 2):
+                                t = Obj(None, f"t{k}")
+                                t.attrs["expand_intermediates"] = expansion(f"term{k}")
+                                ts.append(t)
+                            me = Obj(EC + "Polynom", "polynom", terms=tuple(ts), exponent=exponent, assumptions={}, term=term)
+                        return dict(self=me, target=None, return_sympy=return_sympy, fully_expand=level)
+                    outs = sx.run(fn, args)
+                    what = f"{cls}.expand_intermediates(exponent {exponent}, fully_expand={level}, return_sympy={return_sympy})"
+                    key = f"{cls} exponent {exponent} {'fully' if level else 'once'} {'sympy' if return_sympy else 'Expr'}"
+                    if len(outs) != 1 or outs[0].kind != "return":
+                        raise AnalysisError(f"R12k: {what}: {outs}")
+                    val, wrapped = unwrap(outs[0].value, return_sympy, target)
+                    n = exponent if isinstance(exponent, int) and exponent > 1 else 1
+                    fs = factors(val) if n > 1 else [val]
+                    if n == 1 and exponent != 1:
+                        ok_shape = isinstance(val, T) and val.op == "pow" and val.args[1] == exponent
+                        fs = [val.args[0]] if ok_shape else [val]
+                    else:
+                        ok_shape = True
+                    used = [str(x.args[0]) for f in fs for x in ([f] if not (isinstance(f, T) and f.op == "add") else f.args)
+                            if isinstance(x, T) and x.op == "sym"]
+                    per_factor = 1 if cls == "Obj" else 2
+                    # every factor is built from expansions of its own: n * per_factor calls, each result used exactly once,
+                    # every factor contains one expansion of every part
+                    want_calls = n * per_factor
+                    ok_calls = len(calls) == want_calls and sorted(used) == sorted(f"{c[0]}#{k + 1}" for k, c in enumerate(calls))
+                    ok_parts = len(fs) == n and all(
+                        sorted(str(x.args[0]).split("#")[0] for x in ([f] if not (isinstance(f, T) and f.op == "add") else f.args)
+                               if isinstance(x, T) and x.op == "sym")
+                        == (["definition"] if cls == "Obj" else ["term1", "term2"]) for f in fs)
+                    if cls == "Obj":
+                        ok_args = all(c[2].get("indices") == idx and c[2].get("fully_expand") is level
+                                      and c[2].get("return_sympy") is True for c in calls)
+                    else:
+                        ok_args = all(c[2].get("target") == target and c[2].get("fully_expand") is level
+                                      and c[2].get("return_sympy") is True for c in calls)
+                    n_checked += 1
+                    ctx.check(rule, fn, ok_shape and ok_calls and ok_parts and ok_args and wrapped,
+                              f"{what}: {n} separately expanded factor(s), level and indices forwarded",
+                              f"{what} evaluates to {val!r} from the expansion calls {[(c[0], c[2]) for c in calls]}: expected "
+                              f"{'a product of ' + str(n) + ' factors, each built from its own call of the expansion' if n > 1 else 'one expansion'}"
+                              " (expand_itmd generates fresh contracted indices per call; a single expansion raised to the power shares one "
+                              "set of summation indices between the factors: sum_k (x_k)^2 instead of (sum_k x_k)^2), with the indices / "
+                              "targets, return_sympy=True and the expansion level forwarded", fn=f"{EC}{cls}.expand_intermediates", key=key)
+    ctx.floor(rule, "expansion scenarios", n_checked, 40)
 
 
 def r12i(ctx, defs):
@@ -420,6 +539,8 @@ def run(ctx):
         r12j(ctx, defs)
     if ctx.want("R12f"):
         r12f(ctx, defs)
+    if ctx.want("R12k"):
+        r12k(ctx)
     if ctx.want("R12i"):
         r12i(ctx, defs)
     if ctx.want("R12h"):
